@@ -63,6 +63,15 @@ def same_result(c, gv, lv):
     raise ValueError(mode)
 
 
+def _has_arith(n):
+    """does the query AST hold an arithmetic node (binary / unary operator)?  Those refuse Go number kinds other than float64"""
+    if isinstance(n, list):
+        if n and n[0] in ("bin", "un") and len(n) >= 3 and isinstance(n[1], str):
+            return True
+        return any(_has_arith(x) for x in n)
+    return False
+
+
 def classify(c, g, l):
     """-> ('pass'|'skip'|'mismatch', detail)"""
     if l["r"] == "oom":
@@ -77,7 +86,8 @@ def classify(c, g, l):
         return "mismatch", "model says error, impl says " + g["r"]
     # model ok
     if g["r"] != "ok":
-        if g["r"] == "error" and c.get("kind_lenient") and c.get("num_kind") and "invalid cast" in str(g.get("msg")):
+        if g["r"] == "error" and c.get("num_kind") and "invalid cast" in str(g.get("msg")) and \
+                (c.get("kind_lenient") or _has_arith(c.get("q"))):
             # the engine refuses arithmetic on a Go number kind other than float64 (AsType[float64]); the model has one
             # number type.  A refusal is accepted; an answer must be the model's answer.
             return "skip", "go-number-kind-refused"
